@@ -401,6 +401,8 @@ def judge_case(ctx, res):
         if name == "observe_all" and "ret" in ev:
             ctx.bump("observations")
             o = ev["ret"]
+            from ..framework import held_handles
+            held_handles(ctx, o, fam, schema, wit)
             live_t = set(o["db"]["tracks"]) if isinstance(o["db"]["tracks"], list) else set()
             live_c = set(o["db"]["crates"]) if isinstance(o["db"]["crates"], list) else set()
             for h, x in (o.get("track_handles") or {}).items():
